@@ -260,6 +260,10 @@ class History:
                     for inp_ in t0.inputs:
                         inp_.sequence = rng.choice([0, 0, 5])
                     self.ctx.count('send:small-sequence')
+                if rng.random() < 0.5:
+                    # the creator decides on the lock time (none at all, or a block height of its own): the importing wallet keeps it
+                    t0.locktime = rng.choice([0, 0, 799990])
+                    self.ctx.count('import:locktime-set-by-creator')
                 w2 = self.open()
                 if how == 'import_obj':
                     t = w2.transaction_import(t0)
@@ -267,6 +271,11 @@ class History:
                     t = w2.transaction_import_raw(t0.raw_hex())
                 else:
                     t = w2.transaction_import(t0.as_dict())
+                self.ctx.evals += 1
+                if (t.locktime, t.version_int, [i_.sequence for i_ in t.inputs]) != (t0.locktime, t0.version_int, [i_.sequence for i_ in t0.inputs]):
+                    self.reload_problems.append(('import', t0.txid, 'the imported transaction is not the exported one',
+                                                 {'form': how, 'locktime': (t0.locktime, t.locktime), 'version': (t0.version_int, t.version_int),
+                                                  'sequences': ([i_.sequence for i_ in t0.inputs], [i_.sequence for i_ in t.inputs])}))
                 t.sign()
                 t.send(broadcast=True)
                 # the history continues on the object that did the work (two objects that are open at the same time
